@@ -104,13 +104,15 @@ def impl_roundtrip(args):
     return (text, impl_parse(text))
 
 
-def impl_parse(text):
+def impl_parse(text, seconds=5):
     import penman
     try:
-        return ('ok', [list(t) for t in timed(penman.parse_triples, text, seconds=5)])
+        return ('ok', [list(t) for t in timed(penman.parse_triples, text, seconds=seconds)])
     except penman.DecodeError as e:
         return ('err', e.lineno, e.offset)
     except Timeout:
+        if seconds < 60:      # a stalled worker on a loaded machine is not a hang: confirm with a long limit
+            return impl_parse(text, seconds=60)
         return ('exc', 'Timeout')
     except BaseException as e:       # noqa
         return ('exc', type(e).__name__)
